@@ -13,7 +13,6 @@ Tie, per generated document and per loop id (None + every segment-anchored loop 
   model = the Lean driver op CTX on the abstract answers (segment, loop path, first-in-loop, pops, pushes, positions)
           obtained by driving the real walker (as walkcorr.py does)
 """
-import hashlib
 import io
 import json
 import os
@@ -418,7 +417,11 @@ def do_case(spec):
     text = ''.join(sg.format('~', '*', ':') + '\n' for sg, _ in gsegs)
     out = {'spec': spec, 'text': text, 'nseg': len(gsegs), 'cases': []}
     rview = reader_view(text)
-    answers, why = walker_answers(text)
+    try:
+        answers, why = walker_answers(text)
+    except (ImportError, AttributeError, TypeError) as ex:
+        out['infra'] = 'cannot drive pyx12.map_walker.walk_tree: %s: %s' % (type(ex).__name__, ex)
+        return out
     if why is None and len(answers) != len(rview):
         why = 'reader-length-mismatch'
     if why is not None:
@@ -463,8 +466,8 @@ def doc_specs(tier, rnd):
     from . import gendoc
     entries = gendoc.index_entries()
     thorough = tier == 'thorough'
-    ndocs = 3000 if thorough else 150
-    max_lids = None if thorough else 22
+    ndocs = 3000 if thorough else 180
+    max_lids = None if thorough else 45
     specs = []
     k = 0
     while len(specs) < ndocs:
@@ -487,17 +490,22 @@ def run(tier):
     res = common.Result('C09', tier)
     res.cov['rule'] = ('documents generated by harness/gendoc.py for every indexed map (required-only + seeded random situational '
                        'nodes and repeats; 20% repeat the interchange, the group or the set inside one file) x loop id in {None, ISA_LOOP, GS_LOOP, ST_LOOP, '
-                       'segment-anchored loop ids of the map (all in thorough; seeded sample of 22 in quick)}; a case is '
+                       'segment-anchored loop ids of the map (all in thorough; seeded sample of 45 in quick)}; a case is '
                        '(map, generator seed, p_opt, max_rep, copies, loop id); non-trivial = a loop id with at least one instance')
-    built = common.proof_stage(res, 'C09')
+    built = common.proof_stage(res, 'C09', targets=('Pyx12Verif', 'pyx12model', 'Pyx12Verif.Props.C09'))
     rnd = random.Random(common.seed() * 7907 + 9)
     specs = doc_specs(tier, rnd)
     nproc = min(16 if tier == 'thorough' else 8, os.cpu_count() or 2)
     ctx = multiprocessing.get_context('fork')
     with ctx.Pool(nproc) as pool:
         docs = pool.map(do_case, specs, chunksize=2)
+    for d in docs:
+        if 'infra' in d:
+            raise common.Infra(d['infra'])
     lines = [d['line'] for d in docs if 'line' in d]
     model = common.run_model(lines) if (built and lines) else None
+    if model is not None and any(x == 'bad-op' for x in model):
+        raise common.Infra('the model driver does not know the CTX op (Drv/C09.lean not registered in Driver.lean)')
     mi = 0
     stat = {'documents': len(docs), 'skipped_documents': 0, 'iterations': 0, 'trees': 0, 'instances': 0, 'back_to_back_instances': 0,
             'instances_ending_the_file': 0, 'max_tree_depth': 0, 'documents_where_walker_and_generator_paths_differ': 0,
